@@ -57,6 +57,14 @@ func c01RememberLeaves(adds []Hash) []Leaf {
 		}
 		return out
 	}
+	if verifParam("remMode", 0) == 2 && len(adds) > 0 {
+		// at most one remembered addition per block
+		r := verifChoose("rememberOne", -1, len(adds)-1)
+		for i := range adds {
+			out[i] = Leaf{Hash: adds[i], Remember: i == r}
+		}
+		return out
+	}
 	for i := range adds {
 		out[i] = Leaf{Hash: adds[i], Remember: verifChoose("remember", 0, 1) == 1}
 	}
